@@ -22,7 +22,14 @@ pub enum Ev {
     GSpawn { name: u8, ctx: u8 },
     GSpawnBad { name: u8, ctx: u8 },
     CDef { name: u8, ctx: u8, valid: bool },
-    CCall { name: u8, ctx: u8 },
+    /// `fail`: the call asks the closure to raise (its frame carries meta {fail: true}): a call
+    /// that ended in `.error` says nothing about the definition
+    CCall {
+        name: u8,
+        ctx: u8,
+        #[serde(default)]
+        fail: bool,
+    },
     Probe,
     Restart,
 }
@@ -41,7 +48,7 @@ pub fn strategy() -> BoxedStrategy<C17Case> {
         3 => nc().prop_map(|(name, ctx)| Ev::GSpawn { name, ctx }),
         1 => nc().prop_map(|(name, ctx)| Ev::GSpawnBad { name, ctx }),
         4 => (nc(), prop_oneof![5 => Just(true), 1 => Just(false)]).prop_map(|((name, ctx), valid)| Ev::CDef { name, ctx, valid }),
-        2 => nc().prop_map(|(name, ctx)| Ev::CCall { name, ctx }),
+        3 => (nc(), proptest::bool::weighted(0.4)).prop_map(|((name, ctx), fail)| Ev::CCall { name, ctx, fail }),
         1 => Just(Ev::Probe),
         2 => Just(Ev::Restart),
     ];
@@ -86,7 +93,7 @@ fn c_script(version: usize, valid: bool) -> String {
     if !valid {
         return "{run: {|frame| let x = }}".into();
     }
-    format!("{{run: {{|frame| \"cv{version}\"}}}}")
+    format!("{{run: {{|frame| if ($frame.meta?.fail? | default false) {{ error make {{msg: \"asked to fail\"}} }}; \"cv{version}\"}}}}")
 }
 
 fn rs(msg: String) -> Fail {
@@ -289,6 +296,7 @@ fn run_in(case: &C17Case, nu: &mut Nu) -> Result<CaseInfo, Fail> {
     let mut same_name_two_ctx = false;
     let mut stopped_and_live = false;
     let mut had_stop = false;
+    let mut failed_call = false;
     for (i, ev) in case.events.iter().enumerate() {
         match ev {
             Ev::HReg { name, ctx, valid } => {
@@ -389,9 +397,13 @@ fn run_in(case: &C17Case, nu: &mut Nu) -> Result<CaseInfo, Fail> {
                     had_stop = true;
                 }
             }
-            Ev::CCall { name, ctx } => {
+            Ev::CCall { name, ctx, fail } => {
                 let n = CN[*name as usize];
-                let f = r.nu.append(&format!("{n}.call"), r.ctxs[*ctx as usize], None, None)?;
+                let meta = if *fail { Some(MetaVal::O(vec![("fail".into(), MetaVal::Bool(true))])) } else { None };
+                let f = r.nu.append(&format!("{n}.call"), r.ctxs[*ctx as usize], None, meta)?;
+                if *fail && r.m.commands.contains_key(&(*ctx, *name)) {
+                    failed_call = true;
+                }
                 if r.m.commands.contains_key(&(*ctx, *name)) {
                     let fid = f.id.clone();
                     r.wait(&format!("call of {n} got no terminal event"), |fr| {
@@ -443,6 +455,7 @@ fn run_in(case: &C17Case, nu: &mut Nu) -> Result<CaseInfo, Fail> {
     let mut labels = vec![];
     for (on, name) in [
         (same_name_two_ctx, "same-name-in-two-contexts"),
+        (failed_call, "command-call-failed-at-run-time"),
         (stopped_and_live, "stopped-and-live-at-restart"),
         (restarts >= 2, "two-or-more-restarts"),
     ] {
@@ -469,7 +482,7 @@ pub fn run(tier: Tier, seed: u64, replay: Option<&std::path::Path>) -> i32 {
         25,
         strategy,
         run_case,
-        "histories (2..11 events, plus a final restart; 1..3 restarts = SIGKILL of the server process and a new process on the same store) over handler register (valid/invalid) / unregister / failing trigger, duplex generator spawn / spawn without content / second spawn of a running name, command define (valid/invalid) / call, for two names of each kind in three contexts, the same name in several contexts included. After each restart, once live sentinels (a fresh register, spawn and define+call) have come through, probes are appended to every context and every command name is called in every context: the handlers answering must be exactly the model's active instances with their original register ids and their own script version; the generators that emit .start must be exactly those whose latest spawn of that (context, name) succeeded, with that spawn's id; each call is answered by the latest valid definition of that (context, name) and by nobody where none exists; no historical probe or call gains a stamped output. Non-trivial = something stopped/replaced/failed and something live at a restart. Distinct by case hash.",
+        "histories (2..11 events, plus a final restart; 1..3 restarts = SIGKILL of the server process and a new process on the same store) over handler register (valid/invalid) / unregister / failing trigger, duplex generator spawn / spawn without content / second spawn of a running name, command define (valid/invalid) / call (some calls ask the closure to raise), for two names of each kind in three contexts, the same name in several contexts included. After each restart, once live sentinels (a fresh register, spawn and define+call) have come through, probes are appended to every context and every command name is called in every context: the handlers answering must be exactly the model's active instances with their original register ids and their own script version; the generators that emit .start must be exactly those whose latest spawn of that (context, name) succeeded, with that spawn's id; each call is answered by the latest valid definition of that (context, name) and by nobody where none exists; no historical probe or call gains a stamped output. Non-trivial = something stopped/replaced/failed and something live at a restart. Distinct by case hash.",
         vec![
             "handlers use the default resume (tail); resuming from history is C14's subject".to_string(),
             "the driver waits for each .unregistered before killing the process (a kill between a user's .unregister and the handler's .unregistered is not generated)".to_string(),
